@@ -96,7 +96,7 @@ def parse(path):
         elif d == "entry":
             cur.entry.append((body, ln))
         elif d == "loop":
-            m = re.match(r"^(\d+)(?:[ \t]+(body-start|body-end|before|after))?[ \t]*$", rest)
+            m = re.match(r"^(\d+)(?:[ \t]+(body-start|body-end|before|after|skip))?[ \t]*$", rest)
             if not m:
                 raise ValueError("%s:%d: bad @loop header %r" % (path, ln, rest))
             k = int(m.group(1))
